@@ -46,6 +46,44 @@ def build() -> dict:
         one: FxInner
         many: list[FxInner]
 
+    # dataclass payloads that extend dataclass payloads, in both orders of first use (conversion happens at the first
+    # instantiation of each class and must not leak from a parent to a child or back)
+    @dataclasses.dataclass
+    class FxBaseA(DataClassPayload[78]):
+        num: int
+        text: str
+
+    @dataclasses.dataclass
+    class FxDerivA(FxBaseA):
+        blob: bytes
+        flags: list[bool]
+
+    @dataclasses.dataclass
+    class FxBaseB(DataClassPayload[79]):
+        flag: bool
+        blob: bytes
+
+    @dataclasses.dataclass
+    class FxDerivB(FxBaseB):
+        real: float
+        one: FxInner
+
+    @dataclasses.dataclass
+    class FxDeriv2B(FxDerivB):
+        small: u32
+
+    @dataclasses.dataclass
+    class FxPlain(DataClassPayload):
+        """
+        Without a message id, with defaults, nesting another dataclass payload.
+        """
+
+        num: int
+        base: FxBaseA
+        bases: list[FxBaseB]
+        text: str = "dflt"
+        nums: list[int] = dataclasses.field(default_factory=list)
+
     def make_probe(name: str, entry: object, nargs: int) -> type:
         """
         A one-field old-style Serializable that hands its arguments to the packer ``name`` the way every
@@ -79,4 +117,5 @@ def build() -> dict:
         return type("Cont_" + inner.__name__, (VariablePayload,),
                     {"format_list": ["H", inner, [inner], "B"], "names": ["pre", "one", "many", "post"]})
 
-    return {"FxInner": FxInner, "FxData": FxData, "make_probe": make_probe, "make_container": make_container}
+    return {"FxInner": FxInner, "FxData": FxData, "FxBaseA": FxBaseA, "FxDerivA": FxDerivA, "FxBaseB": FxBaseB,
+            "FxDerivB": FxDerivB, "FxDeriv2B": FxDeriv2B, "FxPlain": FxPlain, "make_probe": make_probe, "make_container": make_container}
